@@ -7,7 +7,8 @@
     the same bytes. Formatting a column type and parsing the result is a fixpoint for every
     type of the dialect.
 
-    What is proved here is the type layer (M-TYPE): FormatType/ParseType per dialect and the
+    What is proved here is the type layer (M-TYPE): FormatType/ParseType per dialect (SQLite, MySQL,
+    PostgreSQL) and the
     TypeRegistry / HCL type-expression layer over the registries dumped from the running Go
     code (gen/Gen_Registry_*.v). The table/column/index/foreign-key/check/attribute layer
     (sql/internal/specutil, */sqlspec*.go) is not modelled; it is covered by the schema-level
@@ -16,7 +17,8 @@ From Coq Require Import String.
 From Coq Require Import List NArith ZArith Bool.
 From Atlas Require Import Base.Bytes Hcl.Str Hcl.RegistryDefs Hcl.Registry
   Hcl.TypesSqlite Hcl.SqliteProofs gen.Gen_Registry_sqlite
-  Hcl.TypesMysql Hcl.MysqlProofs gen.Gen_Registry_mysql gen.Gen_Registry_postgres Hcl.RegistryWf.
+  Hcl.TypesMysql Hcl.MysqlProofs Hcl.MysqlValuesProofs gen.Gen_Registry_mysql gen.Gen_Registry_postgres Hcl.RegistryWf
+  Hcl.TypesPg Hcl.PgProofs Hcl.RegistryRoundtrip.
 Import ListNotations.
 
 (** * SQLite *)
@@ -61,22 +63,121 @@ Theorem C15_format_parse_fix_mysql_refuted :
 Proof. exact MysqlProofs.mysql_fix_refuted. Qed.
 Print Assumptions C15_format_parse_fix_mysql_refuted.
 
-(** What holds, for unbounded size / precision / scale / time precision: every type whose T
-    is (case-insensitively) a name of its class and whose size parameters are non-negative
-    ([MysqlProofs.wf]) is a fixpoint. PARTIAL: ENUM and SET value lists are excluded ([wf] is
-    false on them); missing lemma: strings.Split(formatValues vs, "','") inverts the join when no
-    value contains a quote. The model itself covers them and is tied to the Go code. *)
-Theorem C15_format_parse_fix_mysql_partial :
-  forall t s, MysqlProofs.wf t = true -> Mysql.FormatType t = Ok s ->
+(** A second, independent witness (found in round 5, reproduced on the Go code: known finding
+    C15-mysql-enum-value-comma): the value "," -- enum(',') is split at quote-comma-quote into two
+    empty values. *)
+Theorem C15_format_parse_fix_mysql_refuted_comma :
+  exists t s, Mysql.FormatType t = Ok s /\
+    ~ (exists t', Mysql.ParseType s = Ok t' /\ Mysql.FormatType t' = Ok s).
+Proof. exact MysqlProofs.mysql_fix_refuted_comma. Qed.
+Print Assumptions C15_format_parse_fix_mysql_refuted_comma.
+
+(** What holds, for unbounded size / precision / scale / time precision and for value lists of any
+    length: every type of every class whose T is (case-insensitively) a name of its class and
+    whose size parameters are non-negative ([MysqlProofs.wf]), and every ENUM / SET whose values
+    contain no quote, no double quote and no slash and whose first value is not exactly ","
+    ([MysqlValuesProofs.vals_ok]), is a fixpoint. The two refutations above are the only
+    counterexample families known (a quote at the edge of a value; first value ","); values
+    containing a double quote or a slash are excluded by the proof only (formatValues leaves an
+    already double-quoted value alone; parseColumn looks for a trailing comment), the model covers
+    them and is tied to the Go code. *)
+Theorem C15_format_parse_fix_mysql :
+  forall t s, MysqlValuesProofs.wf_all t = true -> Mysql.FormatType t = Ok s ->
     exists t', Mysql.ParseType s = Ok t' /\ Mysql.FormatType t' = Ok s.
-Proof. exact MysqlProofs.mysql_fix. Qed.
-Print Assumptions C15_format_parse_fix_mysql_partial.
+Proof. exact MysqlValuesProofs.mysql_fix_all. Qed.
+Print Assumptions C15_format_parse_fix_mysql.
+
+(** the split/join inversion behind it: for values without a quote whose first one is not ",",
+    Trim o Split(_, "','") gives back exactly the values formatValues joined. *)
+Theorem C15_mysql_split_join_inv :
+  forall v vs, MysqlValuesProofs.no39 v = true -> forallb MysqlValuesProofs.no39 vs = true -> v <> [44%N] ->
+    map (trim_c 39) (split (join [44%N] (map MysqlValuesProofs.q (v :: vs))) MysqlValuesProofs.sep3) = v :: vs.
+Proof. exact MysqlValuesProofs.split_join_inv. Qed.
+Print Assumptions C15_mysql_split_join_inv.
+
+Example C15_ex_mysql_values :
+  MysqlValuesProofs.wf_all (Mysql.EnumType (bs "enum") [bs "a,b"; bs ","; bs "c)"; bs ""]) = true /\
+  Mysql.FormatType (Mysql.SetType [bs "x"; bs "y z"]) = Ok (bs "set('x','y z')") /\
+  MysqlValuesProofs.wf_all (Mysql.SetType [bs "x"; bs "y z"]) = true /\
+  MysqlValuesProofs.wf_all (Mysql.EnumType (bs "enum") [bs ","; bs "b"]) = false /\
+  MysqlValuesProofs.wf_all (Mysql.EnumType (bs "enum") [bs "x'"]) = false /\
+  MysqlValuesProofs.wf_all (Mysql.EnumType (bs "enum") []) = false.
+Proof. vm_compute. repeat split; reflexivity. Qed.
 
 Example C15_ex_mysql_fix :
-  MysqlProofs.wf (Mysql.DecimalType (bs "NUMERIC") 65 30 true) = true /\
+  MysqlValuesProofs.wf_all (Mysql.DecimalType (bs "NUMERIC") 65 30 true) = true /\
   Mysql.FormatType (Mysql.DecimalType (bs "NUMERIC") 65 30 true) = Ok (bs "decimal(65,30) unsigned") /\
   MysqlProofs.wf (Mysql.TimeType (bs "timestamp") (Some 6%Z) None) = true.
 Proof. vm_compute. auto. Qed.
+
+(** * PostgreSQL *)
+
+(** Fixpoint, full strength: false. FormatType prints the name of a user-defined / enum / domain /
+    composite type verbatim, so a type whose name is a built-in name re-parses as the built-in
+    type (EnumType "int" -> "int" -> IntegerType -> "integer"). Not a finding: such a name cannot
+    be created in PostgreSQL without quoting, and the HCL layer refers to enums by reference. *)
+Theorem C15_format_parse_fix_pg_refuted :
+  exists t s, Pg.FormatType t = Ok s /\
+    ~ (exists t', Pg.ParseType s = Ok t' /\ Pg.FormatType t' = Ok s).
+Proof. exact PgProofs.pg_fix_refuted. Qed.
+Print Assumptions C15_format_parse_fix_pg_refuted.
+
+(** What holds, for unbounded bit length / character size / time precision / numeric precision and
+    scale: every type of every class whose T is (case-insensitively) a name of its class and
+    whose parameters are non-negative ([PgProofs.wf_all]) is a fixpoint of
+    ParseType o FormatType -- through the hand matchers of reArray and reInterval. Per class:
+    user-defined / enum / domain / composite names are single words without ( ) , space [ that
+    are not built-in names ([udt_ok]); interval fields are the 13 fields of reInterval with
+    precision nil or 0..6 (what PostgreSQL accepts); an array type is [n[]] where n is the text
+    arrayType extracts and ParseType accepts n ([arr_wf]; the element is parsed recursively). *)
+Theorem C15_format_parse_fix_pg :
+  forall t s, PgProofs.wf_all t = true -> Pg.FormatType t = Ok s ->
+    exists t', Pg.ParseType s = Ok t' /\ Pg.FormatType t' = Ok s.
+Proof. exact PgProofs.pg_fix_all. Qed.
+Print Assumptions C15_format_parse_fix_pg.
+
+Example C15_ex_pg_fix :
+  PgProofs.wf_all (Pg.DecimalType (bs "NUMERIC") 1000 30) = true /\
+  Pg.FormatType (Pg.DecimalType (bs "NUMERIC") 1000 30) = Ok (bs "numeric(1000,30)") /\
+  PgProofs.wf_all (Pg.TimeType (bs "timestamp with time zone") (Some 3%Z)) = true /\
+  Pg.FormatType (Pg.TimeType (bs "timestamp with time zone") (Some 3%Z)) = Ok (bs "timestamptz(3)") /\
+  PgProofs.wf_all (Pg.IntervalType (bs "interval") (bs "DAY TO SECOND") (Some 2%Z)) = true /\
+  PgProofs.wf_all (Pg.ArrayType (bs "character varying(5)[]")) = true /\
+  PgProofs.wf_all (Pg.ArrayType (bs "int[][]")) = false /\
+  PgProofs.wf_all (Pg.EnumType (bs "my_enum")) = true /\ PgProofs.wf_all (Pg.EnumType (bs "int")) = false.
+Proof. vm_compute. repeat split; reflexivity. Qed.
+
+(** reArray hand matcher: a text whose last byte is not ']' ' ' 'y' 'Y' is never read as an array
+    (for every text, by induction over the automaton), and neither is a text without ' ' and '['. *)
+Theorem C15_pg_array_matcher_negative :
+  forall s, PgProofs.endset (last s 0%N) = false \/ PgProofs.no_sp_lb s = true -> Pg.arrayType s = None.
+Proof.
+  intros s [H|H]; [apply PgProofs.arrayType_none; exact H|].
+  unfold Pg.arrayType. rewrite PgProofs.arr_scan_none_nosp by exact H. reflexivity.
+Qed.
+Print Assumptions C15_pg_array_matcher_negative.
+
+Example C15_ex_pg_array :
+  Pg.arrayType (bs "int ARRAY[3] [ ]") = Some (bs "int") /\ Pg.arrayType (bs "a[] ARRAY") = Some (bs "a[]") /\
+  Pg.arrayType (bs "numeric(10,2)") = None /\ Pg.intervalField (bs "interval year to second") = Some (bs "second").
+Proof. vm_compute. repeat split; reflexivity. Qed.
+
+(** The recursion of ParseType through array element types never needs more fuel: one more unit of
+    fuel never changes a successful outcome's success (so fuel = S (length typ) is a faithful bound). *)
+Theorem C15_pg_parse_fuel_mono :
+  forall f s t, Pg.ParseType_f f s = Ok t -> exists t', Pg.ParseType_f (S f) s = Ok t'.
+Proof. exact PgProofs.ParseType_f_mono. Qed.
+Print Assumptions C15_pg_parse_fuel_mono.
+
+Example C15_ex_pg_fuel : exists t, Pg.ParseType_f 3 (bs "a[] ARRAY[]") = Ok t.
+Proof. eexists. vm_compute. reflexivity. Qed.
+
+(** ... and the array of every type name of the registry dumped from the code is well formed
+    (finite; re-checked against gen/Gen_Registry_postgres.v on every run). *)
+Theorem C15_registry_arrays_pg :
+  forallb (fun s => PgProofs.arr_wf (ts_T s ++ bs "[]")) registry_postgres = true.
+Proof. vm_compute. reflexivity. Qed.
+Print Assumptions C15_registry_arrays_pg.
 
 (** * Registries (all three dialects) *)
 
@@ -125,3 +226,121 @@ Example C15_ex_valid_spec :
   valid_spec (mkSpec "x" "x" [mkAttr "a" KInt false; mkAttr "b" KInt true] "" false false false) = false /\
   valid_spec (mkSpec "x" "x" [mkAttr "a" KInt true; mkAttr "b" KSlice false] "" false false false) = true.
 Proof. vm_compute. auto. Qed.
+
+(** * C15_registry_roundtrip, the print / eval half (generic over every registry)
+
+    Full statement (not proved): for every spec of the three registries and every parameter
+    valuation, Type (eval (print (Convert t))) is FormatType-equal to t. What is proved here is the
+    inversion of the HCL type-expression printer by the evaluator (hclType / typeFuncSpec /
+    typeFuncSpecImpl), for EVERY registry with unique T and Name keys (the finite side condition
+    C15_registry_wf_partial establishes for the three dumped registries), every spec and every
+    valuation, in the two shapes that need no optional / variadic argument:
+    - a type without attributes of a spec without required arguments prints as the bare name and
+      evaluates back to itself;
+    - a type carrying exactly the positional (required, non-variadic) arguments of its spec, with
+      values of the declared kinds, prints as name(v1,...,vn) and evaluates back to itself.
+    PARTIAL: optional trailing arguments, the variadic (slice) argument, the `unsigned` column
+    attribute, Convert (field reflection, zero-skipping) and Type (PrintType + ParseType) are not
+    in these lemmas; they are covered by the tie and the oracle (the zero-skipping of Convert is
+    the source of known findings 3, 4 and 7). *)
+Theorem C15_registry_roundtrip_bare_partial :
+  forall reg fmt spec,
+    nodup_b (map ts_T reg) = true -> nodup_b (map ts_name reg) = true -> In spec reg ->
+    ts_fmt_custom spec = false -> type_func_req_args spec = [] ->
+    hcl_type reg fmt {| h_T := ts_T spec; h_attrs := [] |} = Ok (PExpr (HIdent (ts_name spec))) /\
+    hcl_eval reg (HIdent (ts_name spec)) = Ok {| h_T := ts_T spec; h_attrs := [] |}.
+Proof. exact RegistryRoundtrip.bare_roundtrip. Qed.
+Print Assumptions C15_registry_roundtrip_bare_partial.
+
+Theorem C15_registry_roundtrip_positional_partial :
+  forall reg fmt spec fargs vs,
+    nodup_b (map ts_T reg) = true -> nodup_b (map ts_name reg) = true -> In spec reg ->
+    ts_fmt_custom spec = false ->
+    type_func_args spec = fargs -> fargs <> [] ->
+    forallb ta_required fargs = true ->
+    forallb (fun p => negb (kind_eqb (ta_kind p) KSlice)) fargs = true ->
+    nodup_b (map ta_name fargs) = true ->
+    length vs = length fargs ->
+    forallb (fun '(p, v) => aval_kind_ok (ta_kind p) v) (combine fargs vs) = true ->
+    forallb RegistryRoundtrip.not_list vs = true ->
+    let typ := {| h_T := ts_T spec; h_attrs := RegistryRoundtrip.zip_attrs fargs vs |} in
+    hcl_type reg fmt typ = Ok (PExpr (HCall (ts_name spec) vs)) /\
+    hcl_eval reg (HCall (ts_name spec) vs) = Ok typ.
+Proof. exact RegistryRoundtrip.positional_roundtrip. Qed.
+Print Assumptions C15_registry_roundtrip_positional_partial.
+
+Example C15_ex_registry_roundtrip :
+  let s := mkSpec "vc" "varchar" [mkAttr "size" KInt true] "" false false false in
+  hcl_type [s] (fun _ _ => Err) {| h_T := bs "varchar"; h_attrs := [{| a_K := bs "size"; a_V := AInt 255 |}] |}
+    = Ok (PExpr (HCall (bs "vc") [AInt 255])) /\
+  hcl_eval [s] (HCall (bs "vc") [AInt 255])
+    = Ok {| h_T := bs "varchar"; h_attrs := [{| a_K := bs "size"; a_V := AInt 255 |}] |} /\
+  hcl_eval [s] (HIdent (bs "vc")) = Err.
+Proof. vm_compute. repeat split; reflexivity. Qed.
+
+(** ... and with optional trailing arguments: the type carries any prefix vs of the function arguments
+    that covers the required ones (what Convert produces, up to its zero-skipping), no argument is
+    variadic. Subsumes the positional case. Still PARTIAL for the same reasons (variadic argument,
+    `unsigned`, Convert, Type). *)
+Theorem C15_registry_roundtrip_prefix_partial :
+  forall reg fmt spec fargs vs,
+    nodup_b (map ts_T reg) = true -> nodup_b (map ts_name reg) = true -> In spec reg ->
+    ts_fmt_custom spec = false ->
+    type_func_args spec = fargs ->
+    forallb (fun p => negb (kind_eqb (ta_kind p) KSlice)) fargs = true ->
+    nodup_b (map ta_name fargs) = true ->
+    vs <> [] ->
+    (length (filter ta_required fargs) <= length vs)%nat -> (length vs <= length fargs)%nat ->
+    forallb (fun '(p, v) => aval_kind_ok (ta_kind p) v) (combine (filter ta_required fargs) vs) = true ->
+    forallb RegistryRoundtrip.not_list vs = true ->
+    let typ := {| h_T := ts_T spec; h_attrs := RegistryRoundtrip.zip_attrs fargs vs |} in
+    hcl_type reg fmt typ = Ok (PExpr (HCall (ts_name spec) vs)) /\
+    hcl_eval reg (HCall (ts_name spec) vs) = Ok typ.
+Proof. exact RegistryRoundtrip.prefix_roundtrip. Qed.
+Print Assumptions C15_registry_roundtrip_prefix_partial.
+
+Example C15_ex_registry_roundtrip_prefix :
+  let s := mkSpec "decimal" "decimal" [mkAttr "precision" KInt false; mkAttr "scale" KInt false] "" false false false in
+  hcl_type [s] (fun _ _ => Err) {| h_T := bs "decimal"; h_attrs := [{| a_K := bs "precision"; a_V := AInt 10 |}] |}
+    = Ok (PExpr (HCall (bs "decimal") [AInt 10])) /\
+  hcl_eval [s] (HCall (bs "decimal") [AInt 10])
+    = Ok {| h_T := bs "decimal"; h_attrs := [{| a_K := bs "precision"; a_V := AInt 10 |}] |} /\
+  hcl_eval [s] (HCall (bs "decimal") [AInt 10; AInt 2; AInt 3]) = Err.
+Proof. vm_compute. repeat split; reflexivity. Qed.
+
+(** ... and the variadic argument alone (enum("a","b"), set("x")): a spec whose only attribute is a
+    slice, for every non-empty value list. *)
+Theorem C15_registry_roundtrip_variadic_partial :
+  forall reg fmt spec a l,
+    nodup_b (map ts_T reg) = true -> nodup_b (map ts_name reg) = true -> In spec reg ->
+    ts_fmt_custom spec = false ->
+    ts_attrs spec = [a] -> kind_eqb (ta_kind a) KSlice = true -> bytes_eqb (ta_name a) unsigned_name = false ->
+    l <> [] ->
+    let typ := {| h_T := ts_T spec; h_attrs := [{| a_K := ta_name a; a_V := AList l |}] |} in
+    hcl_type reg fmt typ = Ok (PExpr (HCall (ts_name spec) (map AStr l))) /\
+    hcl_eval reg (HCall (ts_name spec) (map AStr l)) = Ok typ.
+Proof. exact RegistryRoundtrip.variadic_roundtrip. Qed.
+Print Assumptions C15_registry_roundtrip_variadic_partial.
+
+(** Coverage (finite, re-checked on every run): every spec of the three dumped registries has one of
+    the two argument shapes of the lemmas above -- no variadic function argument (bare / positional /
+    prefix) with distinct names, or a single variadic attribute. *)
+Definition spec_shape_ok (s : TypeSpec) : bool :=
+  (forallb (fun p => negb (kind_eqb (ta_kind p) KSlice)) (type_func_args s) && nodup_b (map ta_name (type_func_args s)))
+  || match ts_attrs s with
+     | [a] => kind_eqb (ta_kind a) KSlice && negb (bytes_eqb (ta_name a) unsigned_name)
+     | _ => false
+     end.
+Theorem C15_registry_shapes :
+  forallb spec_shape_ok registry_sqlite = true /\
+  forallb spec_shape_ok registry_mysql = true /\
+  forallb spec_shape_ok registry_postgres = true.
+Proof. vm_compute. auto. Qed.
+Print Assumptions C15_registry_shapes.
+
+Example C15_ex_registry_roundtrip_variadic :
+  let s := mkSpec "enum" "enum" [mkAttr "values" KSlice true] "" false false false in
+  hcl_eval [s] (HCall (bs "enum") [AStr (bs "a"); AStr (bs "b")])
+    = Ok {| h_T := bs "enum"; h_attrs := [{| a_K := bs "values"; a_V := AList [bs "a"; bs "b"] |}] |} /\
+  hcl_eval [s] (HCall (bs "enum") []) = Err /\ spec_shape_ok s = true.
+Proof. vm_compute. repeat split; reflexivity. Qed.
